@@ -10,7 +10,7 @@ def bytesOfStr (s : Str) : List UInt8 := s.map fun c => UInt8.ofNat c.toNat
 def docArg (h : String) : Option Str := (hexArg h).map strOfBytes
 def docOut (s : Str) : String := "ok " ++ hexOut (bytesOfStr s)
 
-def binArg (s : String) : Option (List Bool) := if s == "-" then some [] else Bits.ofBinString? s
+private def binArg (s : String) : Option (List Bool) := if s == "-" then some [] else Bits.ofBinString? s
 def binOut (l : List Bool) : String := if l.isEmpty then "-" else Bits.toBinString l
 
 def anyArg (s : String) : Option (Option Anycast) :=
